@@ -204,6 +204,10 @@ func (e *Engine) guardObligations(want map[string]bool) ([]*Obligation, error) {
 		if !ok {
 			return nil, fmt.Errorf("guarded_by: %s is not a struct", g.Type)
 		}
+		if len(g.Fields) == 1 && g.Fields[0] == "@broadcast_only" {
+			out = append(out, e.broadcastOnly(g, st, u)...)
+			continue
+		}
 		fields := map[int]string{}
 		all := len(g.Fields) == 1 && g.Fields[0] == "*"
 		for i := 0; i < u.NumFields(); i++ {
@@ -973,4 +977,89 @@ func checkLocksReleased(fn *ssa.Function) (bool, string) {
 		}
 	}
 	return msg == "", msg
+}
+
+// broadcastOnly: every (*sync.Cond).Signal / Broadcast call in the module whose receiver is loaded from the declared
+// field is inspected; a Signal is a violation, and at least one Broadcast must exist (else the declaration is stale).
+func (e *Engine) broadcastOnly(g GuardInfo, st types.Type, u *types.Struct) []*Obligation {
+	idx := -1
+	for i := 0; i < u.NumFields(); i++ {
+		if u.Field(i).Name() == g.Lock {
+			idx = i
+		}
+	}
+	name := fmt.Sprintf("wake:%s.%s:every-wake-up-is-a-broadcast", g.Type, g.Lock)
+	if idx < 0 {
+		return []*Obligation{{Name: name, Func: g.Type, Kind: "guard", Props: g.Props, Structu: true, StructOK: false,
+			StructMsg: "CONTRACT-STALE broadcast_only: field not found", Src: "broadcast_only"}}
+	}
+	var fromField func(v ssa.Value, depth int) bool
+	fromField = func(v ssa.Value, depth int) bool {
+		if depth > 6 {
+			return false
+		}
+		switch v := v.(type) {
+		case *ssa.FieldAddr:
+			pt, ok := v.X.Type().Underlying().(*types.Pointer)
+			return ok && types.Identical(pt.Elem(), st) && v.Field == idx
+		case *ssa.UnOp:
+			if v.Op == token.MUL {
+				if al, ok := v.X.(*ssa.Alloc); ok && al.Referrers() != nil {
+					for _, r := range *al.Referrers() {
+						if sv, ok := r.(*ssa.Store); ok && sv.Addr == al && fromField(sv.Val, depth+1) {
+							return true
+						}
+					}
+					return false
+				}
+				return fromField(v.X, depth+1)
+			}
+		}
+		return false
+	}
+	var signals []string
+	broadcasts := 0
+	for _, sp := range e.SSAPkgs {
+		if !e.inModule(sp.Pkg) {
+			continue
+		}
+		for _, fn := range allFunctions(sp) {
+			for _, b := range fn.Blocks {
+				for _, in := range b.Instrs {
+					var cc *ssa.CallCommon
+					switch in := in.(type) {
+					case *ssa.Call:
+						cc = &in.Call
+					case *ssa.Defer:
+						cc = &in.Call
+					case *ssa.Go:
+						cc = &in.Call
+					}
+					if cc == nil || len(cc.Args) == 0 {
+						continue
+					}
+					f := staticFn(cc)
+					if f == nil || f.Pkg == nil || f.Pkg.Pkg.Path() != "sync" || !fromField(cc.Args[0], 0) {
+						continue
+					}
+					switch f.Name() {
+					case "Broadcast":
+						broadcasts++
+					case "Signal":
+						p := e.Fset.Position(in.Pos())
+						signals = append(signals, fmt.Sprintf("%s:%d", shortFile(p.Filename), p.Line))
+					}
+				}
+			}
+		}
+	}
+	msg := ""
+	ok := len(signals) == 0 && broadcasts > 0
+	if len(signals) > 0 {
+		msg = fmt.Sprintf("%s.%s is woken with Signal at %s: a waiter of another kind may consume the wake-up (lost wake-up)", g.Type, g.Lock, strings.Join(signals, ", "))
+	} else if broadcasts == 0 {
+		msg = "CONTRACT-STALE broadcast_only: no Broadcast on this field found"
+	}
+	return []*Obligation{{Name: name, Func: g.Type, Kind: "guard", Props: g.Props, Structu: true, StructOK: ok, StructMsg: msg,
+		Src: fmt.Sprintf("broadcast_only %s.%s (%d broadcast sites)", g.Type, g.Lock, broadcasts)}}
 }
